@@ -1,6 +1,8 @@
 package main
 
 import (
+	"runtime/debug"
+	"runtime/pprof"
 	"encoding/json"
 	"flag"
 	"fmt"
@@ -20,6 +22,7 @@ func openLog(path string) *os.File {
 }
 
 func main() {
+	debug.SetGCPercent(400)
 	if len(os.Args) < 2 {
 		fmt.Fprintln(os.Stderr, "usage: vcheck <property|run|replay|selftest> ...")
 		os.Exit(2)
@@ -48,7 +51,13 @@ func cmdRun(argv []string) int {
 	maxFail := fs.Int("maxfail", 10, "stop after this many failures")
 	slog := fs.String("solverlog", "", "solver log prefix")
 	verbose := fs.Bool("v", false, "verbose")
+	prof := fs.String("cpuprofile", "", "cpu profile")
 	fs.Parse(argv)
+	if *prof != "" {
+		f, _ := os.Create(*prof)
+		pprof.StartCPUProfile(f)
+		defer pprof.StopCPUProfile()
+	}
 	ov, err := buildOverlay(map[string][]string{*pkg: splitList(*files)})
 	if err != nil {
 		fmt.Fprintln(os.Stderr, err)
